@@ -82,6 +82,8 @@ type BOpts struct {
 	ExtraEnv   []string
 	// Argv0/PreArgs: run as `git -C dir sizer ...` when set
 	ViaGit bool
+	// NoShim: do not put the proxy directory first on PATH
+	NoShim bool
 	// StdoutFull: connect stdout to /dev/full (every write fails with ENOSPC)
 	StdoutFull bool
 }
@@ -100,6 +102,9 @@ func RunB(sc *Scenario, site *Site, o BOpts) *Result {
 	env := EnvFor(site, &sc.Inv)
 	shimdir := os.Getenv("VERIF_SHIMDIR")
 	for i, kv := range env {
+		if o.NoShim {
+			break
+		}
 		if strings.HasPrefix(kv, "PATH=") && shimdir != "" && !strings.HasPrefix(kv, "PATH="+shimdir) {
 			env[i] = "PATH=" + shimdir + string(os.PathListSeparator) + kv[5:]
 		}
